@@ -2,9 +2,11 @@
 //!   fvharness corr   <Cxx> <seed> <n>   transcript of inputs and implementation outputs for the Lean driver
 //!   fvharness search <Cxx> <seed> <n>   evaluates the property itself on the real code with an independent oracle
 mod util;
+mod trace;
 mod c04;
 mod c05;
 mod c06;
+mod c13;
 mod c17;
 mod c18;
 
@@ -21,12 +23,17 @@ fn main() {
     let extra: Vec<String> = args[5..].to_vec();
     let _ = &extra;
     match (mode, prop) {
+        ("corr", "C01") => trace::corr("C01", seed, n),
+        ("corr", "C11") => trace::corr("C11", seed, n),
+        ("corr", "C12") => trace::corr("C12", seed, n),
         ("corr", "C04") => c04::corr(seed, n),
         ("search", "C04") => c04::search(seed, n),
         ("corr", "C05") => c05::corr(seed, n),
         ("search", "C05") => c05::search(seed, n),
         ("corr", "C06") => c06::corr(seed, n),
         ("search", "C06") => c06::search(seed, n),
+        ("corr", "C13") => c13::corr(seed, n),
+        ("search", "C13") => c13::search(seed, n),
         ("corr", "C17") => c17::corr(seed, n),
         ("search", "C17") => c17::search(seed, n),
         ("corr", "C18") => c18::corr(seed, n),
